@@ -289,6 +289,48 @@ pub fn run_matrix(tier: &str, seed: u64, out: &mut Out) {
              (vec!["l"], json!({"$a": [{"$o": {"a": 9, "x": "r"}}, {"$o": {"a": 8, "x": "s"}}, {"$o": {"a": 7, "x": "t"}}]})), (vec!["l", "2", "a"], json!(70))],
     ];
     let mut id = 0;
+    // l-value paths through loops (C11): a list that is a data list or a script list depending on data, nested loops whose
+    // inner list is a member chain of the outer item, bindings three levels deep
+    let loop_templates: Vec<&str> = vec![
+        "<wxs module=\"m\">exports.list = [{name: 's0', tags: [{text: 'st'}]}, {name: 's1', tags: []}]</wxs><block wx:for=\"{{ a ? g : m.list }}\"><v model:value=\"{{ item.name }}\" bind:tap=\"{{ item.name }}\" change:p=\"{{ f }}\" q=\"{{ index }}\"/></block>",
+        "<block wx:for=\"{{ g }}\" wx:for-item=\"gr\"><block wx:for=\"{{ gr.members }}\" wx:for-item=\"mem\"><v model:value=\"{{ mem.name }}\" bind:tap=\"{{ mem.name }}\"/><block wx:for=\"{{ mem.tags }}\" wx:for-item=\"t\" wx:for-index=\"ti\"><v model:v=\"{{ t.text }}\" w=\"{{ ti }}\"/></block></block></block>",
+        "<block wx:for=\"{{ g }}\"><block wx:for=\"{{ item.members }}\"><v model:value=\"{{ item.name }}\"/></block><v model:value=\"{{ item.title }}\"/></block>",
+        "<block wx:for=\"{{ g[d].members }}\"><v model:value=\"{{ item.name }}\" model:w=\"{{ g[d].members[index].name }}\"/></block>",
+        "<block wx:for=\"{{ a ? g : k }}\"><block wx:for=\"{{ item.members }}\" wx:for-item=\"mm\"><v model:value=\"{{ mm.name }}\"/></block></block>",
+    ];
+    let loop_data: Vec<J> = vec![
+        json!({"$o": {"a": 1, "d": 0, "f": {"$fn": "ff"},
+            "g": {"$a": [{"$o": {"title": "T0", "name": "n0", "members": {"$a": [{"$o": {"name": "m00", "tags": {"$a": [{"$o": {"text": "t000"}}, {"$o": {"text": "t001"}}]}}}, {"$o": {"name": "m01", "tags": {"$a": []}}}]}, "tags": {"$a": []}}},
+                         {"$o": {"title": "T1", "name": "n1", "members": {"$a": [{"$o": {"name": "m10", "tags": {"$a": [{"$o": {"text": "t100"}}]}}}]}, "tags": {"$a": []}}}]},
+            "k": {"$a": [{"$o": {"title": "K0", "name": "k0", "members": {"$a": [{"$o": {"name": "km", "tags": {"$a": []}}}]}, "tags": {"$a": []}}}]}}}),
+    ];
+    for (li, src) in loop_templates.iter().enumerate() {
+        let mut tg = TmplGroup::new();
+        let diags = tg.add_tmpl("p", src);
+        let max_level = diags.iter().map(|d| d.kind.level() as u8).max().unwrap_or(0);
+        let bundle = tg.get_tmpl_gen_object_groups().unwrap_or_default();
+        for d0 in loop_data.iter() {
+            let mut datas = vec![d0.clone()];
+            let mut trees = vec![];
+            let mut cur = d0.clone();
+            let steps: Vec<(Vec<&str>, J)> = vec![
+                (vec!["a"], json!(0)), (vec!["d"], json!(1)), (vec!["g", "0", "members", "0", "name"], json!("M")), (vec!["a"], json!(2)),
+                (vec!["g", "1", "title"], json!("TT")), (vec!["d"], json!(0)),
+            ];
+            for (path, nv) in steps.iter() {
+                set_path(&mut cur, path, nv.clone());
+                datas.push(cur.clone());
+                let p: Vec<String> = path.iter().map(|x| x.to_string()).collect();
+                trees.push(tree_of(&[p], 0));
+            }
+            let job = json!({
+                "kind": "behave", "id": format!("L{}", li), "src": src, "bundle": bundle, "path": "p", "max_level": max_level,
+                "datas": datas, "trees": trees, "features": [format!("matrix-loop-template-{}", li), "matrix-all-contexts"],
+                "slotValues": {"$o": {}},
+            });
+            out.raw(&job.to_string());
+        }
+    }
     for shape in shapes.iter() {
         let e = shape;
         let wxs = "<wxs module=\"m\">exports.f = function(){ return 'F' }; exports.g = function(){ return 'G' }; exports.a = 'ma'; exports.x = 'mx'; exports.b = 'mb'; exports.o = { a: 'moa', x: 'mox', b: 'mob' }</wxs>";
